@@ -570,8 +570,29 @@ type jsonField struct {
 // rules (tags, unexported fields skipped, untagged embedded structs flattened,
 // shallower names win).
 func jsonFields(st *types.Struct, prefix []int) []jsonField {
+	all := jsonFieldsRaw(st, prefix)
+	// among fields of the same name the shallowest wins (encoding/json's
+	// dominance rule); order is declaration order with embedded structs
+	// inlined at their position
+	best := map[string]int{}
+	for _, f := range all {
+		if d, ok := best[f.name]; !ok || len(f.index) < d {
+			best[f.name] = len(f.index)
+		}
+	}
 	var out []jsonField
-	var embedded []jsonField
+	seen := map[string]bool{}
+	for _, f := range all {
+		if len(f.index) == best[f.name] && !seen[f.name] {
+			seen[f.name] = true
+			out = append(out, f)
+		}
+	}
+	return out
+}
+
+func jsonFieldsRaw(st *types.Struct, prefix []int) []jsonField {
+	var out []jsonField
 	for k := 0; k < st.NumFields(); k++ {
 		f := st.Field(k)
 		tag := reflect.StructTag(st.Tag(k)).Get("json")
@@ -586,12 +607,7 @@ func jsonFields(st *types.Struct, prefix []int) []jsonField {
 				ft = pt.Elem()
 			}
 			if est, ok := ft.Underlying().(*types.Struct); ok {
-				if !f.Exported() {
-					if _, named := ft.(*types.Named); !named {
-						continue
-					}
-				}
-				embedded = append(embedded, jsonFields(est, idx)...)
+				out = append(out, jsonFieldsRaw(est, idx)...)
 				continue
 			}
 		}
@@ -603,17 +619,6 @@ func jsonFields(st *types.Struct, prefix []int) []jsonField {
 		}
 		out = append(out, jsonField{name: name, index: idx, omitEmpty: strings.Contains(","+opts+",", ",omitempty,"),
 			quoted: strings.Contains(","+opts+",", ",string,"), typ: f.Type()})
-	}
-	for _, e := range embedded {
-		dup := false
-		for _, o := range out {
-			if o.name == e.name {
-				dup = true
-			}
-		}
-		if !dup {
-			out = append(out, e)
-		}
 	}
 	return out
 }
